@@ -132,6 +132,14 @@ impl<M: OutMode> Child for SimFut<M> {
         self.id
     }
 }
+impl<M: OutMode> Child for BigFut<M> {
+    fn make(id: u32) -> Self {
+        BigFut::new(id)
+    }
+    fn cid(&self) -> u32 {
+        self.id
+    }
+}
 impl<M: OutMode> Child for NdFut<M> {
     fn make(id: u32) -> Self {
         NdFut::new(id)
@@ -660,6 +668,9 @@ pub fn build(cfg: &Config, initial: Vec<u32>) -> Result<Box<dyn Subject>, ()> {
                     } else {
                         Box::new(STjaZ(try_join_all(initial.map(SimFut::<TryZst>::new))))
                     }
+                }
+                SubjectKind::FUB | SubjectKind::FU | SubjectKind::FOB | SubjectKind::FO | SubjectKind::JA if cfg.shape & 8 != 0 => {
+                    coll!(BigFut<Plain>)
                 }
                 SubjectKind::FUB | SubjectKind::FU | SubjectKind::FOB | SubjectKind::FO | SubjectKind::JA => match cfg.shape & 3 {
                     0 => coll!(SimFut<Plain>),
